@@ -635,7 +635,7 @@ def run(run: Run):
         except Exception as e:
             run.add_broken(f'replay-of-known-witness:{key}', f'{type(e).__name__}: {e}')
 
-    n = int(os.environ.get('VERIF_C08_N', 0)) or (70 if run.tier == 'quick' else 600)   # env override: development aid for mutant runs
+    n = int(os.environ.get('VERIF_C08_N', 0)) or (70 if run.tier == 'quick' else 400)   # env override: development aid for mutant runs
     cases = []
     new = {}
     for i in range(n):
